@@ -7,6 +7,8 @@ import WebpVerif.Lemmas.Vp8Border
 import WebpVerif.Lemmas.Vp8Pred
 import WebpVerif.Lemmas.Vp8Coef
 import WebpVerif.Lemmas.Vp8Tok
+import WebpVerif.Model.Vp8Quant
+import WebpVerif.Spec.Vp8QuantSpec
 
 /-!
 # C02 — VP8 key-frame reconstruction is bit-exact
@@ -55,6 +57,47 @@ theorem quant_rules_eq : ∀ i < 128,
       Gen.Libwebp.kDcTable.getD (min i Gen.Libwebp.uvdcClip) 0 ∧
     Gen.Tables.Y2DC_MUL = 2 := by
   decide +kernel
+
+
+theorem clamp127_clip (v : Int) : Vp8Quant.clamp127 v = Vp8QuantSpec.clip v 127 ∧ Vp8Quant.clamp127 v < 128 := by
+  unfold Vp8Quant.clamp127 Vp8QuantSpec.clip; constructor <;> (try split) <;> (try split) <;> omega
+
+theorem clip117 (v : Int) : Vp8QuantSpec.clip v Gen.Libwebp.uvdcClip = min (Vp8Quant.clamp127 v) Gen.Libwebp.uvdcClip := by
+  show Vp8QuantSpec.clip v 117 = min (Vp8Quant.clamp127 v) 117
+  unfold Vp8Quant.clamp127 Vp8QuantSpec.clip; (split <;> try split) <;> omega
+
+/-- **the dequantisation factors are the reference's.** For every header state (segments on or
+    off, delta or absolute levels), every level, base index and delta - no range hypothesis at
+    all - the six factors `read_quantization_indices` stores are the six matrix entries
+    libwebp's `VP8ParseQuant` computes. -/
+theorem quant_factors_are_reference (se dv : Bool) (level : Int) (yacAbs : Nat) (ydc y2dc y2ac uvdc uvac : Int) :
+    Vp8Quant.factors se dv level yacAbs ydc y2dc y2ac uvdc uvac =
+      Vp8QuantSpec.matrices se (!dv) level yacAbs ydc y2dc y2ac uvdc uvac := by
+  have hb : Vp8Quant.baseIndex se dv level yacAbs = Vp8QuantSpec.q se (!dv) level yacAbs := by
+    unfold Vp8Quant.baseIndex Vp8QuantSpec.q; cases se <;> cases dv <;> simp
+  unfold Vp8Quant.factors Vp8QuantSpec.matrices
+  simp only [hb]
+  generalize Vp8QuantSpec.q se (!dv) level yacAbs = q
+  unfold Vp8Quant.dcQuant Vp8Quant.acQuant
+  have h1 := (small_tables_eq).1
+  have h2 := (small_tables_eq).2.1
+  have e1 := quant_rules_eq _ (clamp127_clip (q + y2ac)).2
+  have e2 := quant_rules_eq _ (clamp127_clip (q + uvdc)).2
+  simp only [← (clamp127_clip _).1, Int.add_zero, ← h1, ← h2] at e1 e2 ⊢
+  have hm := e1.2.2
+  rw [hm] at *
+  congr 1; congr 1; congr 1; congr 1
+  · have := e1.1; rw [Nat.max_def, Nat.max_def] at this
+    split <;> split <;> split at this <;> split at this <;> omega
+  · congr 1
+    have := e2.2.1; rw [Nat.min_def] at this
+    rw [clip117, ← this]; split <;> split <;> omega
+
+/-- non-vacuity / sanity: segment with delta level -3 on base index 40, deltas 2 -15 15 -7 0 -/
+example : Vp8Quant.factors true true (-3) 40 2 (-15) 15 (-7) 0 = [36, 41, 44, 86, 27, 41] := by decide +kernel
+/-- the y2ac floor and the uvdc cap are both reachable -/
+example : Vp8Quant.factors false false 0 0 0 0 0 0 0 = [4, 4, 8, 8, 4, 4] ∧
+    Vp8Quant.factors false false 0 127 0 0 0 0 0 = [157, 284, 314, 440, 132, 284] := by decide +kernel
 
 /-! ### loop-filter kernels = RFC 6386 section 15 -/
 
